@@ -71,11 +71,7 @@ impl FromStr for Square {
             let row = chars[1];
 
             if let Ok(row) = row.to_string().parse() {
-                let column_as_num = column as u8 - ASCII_LETTER_A + 1;
-                if column_as_num >= 1
-                    && column_as_num <= BOARD_WIDTH as u8
-                    && (1..=BOARD_HEIGHT).contains(&row)
-                {
+                if ('a'..='h').contains(&column) && (1..=BOARD_HEIGHT).contains(&row) {
                     return Ok(Square::new(column, row));
                 }
             }
